@@ -65,7 +65,7 @@ Qed.
 
 Section Model.
   Variable re : str -> str -> bool.
-  Variable substitute : bool -> list (str * str) -> str -> str + str.
+  Variable substitute : bool -> list (str * str) -> str -> subres.
   Variable sc : script.
 
   Notation apply_record := (apply_record substitute sc).
@@ -170,7 +170,7 @@ Section Model.
   Proof. intros H. cbn. now rewrite H. Qed.
 
   Theorem executed_system st w l cs cmd ex r cmd' :
-    should_skip (labels st) [] cs = false -> may_substitute substitute st false cmd = inl cmd' ->
+    should_skip (labels st) [] cs = false -> may_substitute substitute st false cmd = SubOk cmd' ->
     exists a w', apply_record st w (RSystem l cs cmd ex r) = ([ECmd cmd'], st, w', apply_system ex a) /\
                  sys_calls w' = sys_calls w + 1 /\ calls w' = calls w.
   Proof.
@@ -178,7 +178,7 @@ Section Model.
   Qed.
 
   Theorem skipped_statement st w l cs c sql e r sql' ev st1 w1 id :
-    may_substitute substitute st true sql = inl sql' ->
+    may_substitute substitute st true sql = SubOk sql' ->
     get_conn st w c = (ev, st1, w1, Some id) ->
     should_skip (labels st1) (engine sc) cs = true ->
     apply_record st w (RStatement l cs c sql e r) = (ev, st1, w1, ONothing) /\
@@ -197,7 +197,7 @@ Section Model.
   Qed.
 
   Theorem skipped_query st w l cs c sql e r sql' ev st1 w1 id :
-    may_substitute substitute st true sql = inl sql' ->
+    may_substitute substitute st true sql = SubOk sql' ->
     get_conn st w c = (ev, st1, w1, Some id) ->
     should_skip (labels st1) (engine sc) cs = true ->
     apply_record st w (RQuery l cs c sql e r) = (ev, st1, w1, ONothing) /\
@@ -218,7 +218,7 @@ Section Model.
   (* executed: exactly one request, on the session bound to the record's connection name,
      carrying the (substituted) SQL text *)
   Theorem executed_statement st w l cs c sql e r sql' ev st1 w1 id :
-    may_substitute substitute st true sql = inl sql' ->
+    may_substitute substitute st true sql = SubOk sql' ->
     get_conn st w c = (ev, st1, w1, Some id) ->
     should_skip (labels st1) (engine sc) cs = false ->
     exists d w2, apply_record st w (RStatement l cs c sql e r) = (ev ++ [ESql id sql'], st1, w2, apply_stmt d) /\
@@ -233,7 +233,7 @@ Section Model.
   Qed.
 
   Theorem executed_query st w l cs c sql e r sql' ev st1 w1 id :
-    may_substitute substitute st true sql = inl sql' ->
+    may_substitute substitute st true sql = SubOk sql' ->
     get_conn st w c = (ev, st1, w1, Some id) ->
     should_skip (labels st1) (engine sc) cs = false ->
     exists d w2, apply_record st w (RQuery l cs c sql e r) = (ev ++ [ESql id sql'], st1, w2, apply_query (cfg st1) e d) /\
@@ -252,7 +252,7 @@ Section Model.
   Proof. reflexivity. Qed.
 
   (* with substitution off the text reaches the database unchanged *)
-  Theorem subst_off_identity st b s : subst_on st = false -> may_substitute substitute st b s = inl s.
+  Theorem subst_off_identity st b s : subst_on st = false -> may_substitute substitute st b s = SubOk s.
   Proof. intros H. unfold may_substitute. now rewrite H. Qed.
 
   (* ------------------------------------------------- facts preserved along any run *)
@@ -380,7 +380,7 @@ Section Model.
   Proof.
     destruct r; cbn; intros H;
       try (injection H as <- <- <- <-; apply Rconn_same; reflexivity).
-    - destruct (may_substitute substitute st true sql); [|injection H as <- <- <- <-; apply Rconn_same; reflexivity].
+    - destruct (may_substitute substitute st true sql); [|injection H as <- <- <- <-; apply Rconn_same; reflexivity|injection H as <- <- <- <-; apply Rconn_same; reflexivity].
       destruct (get_conn st w c) as [[[ev1 st1] w1] [id|]] eqn:G.
       + pose proof (Rconn_get _ _ _ _ _ _ _ G) as RG.
         destruct (should_skip (labels st1) (engine sc) conds).
@@ -388,7 +388,7 @@ Section Model.
         * unfold db_request in H. injection H as <- <- <- <-.
           eapply Rconn_ext; [exact RG|reflexivity|reflexivity|apply filter_connect_snoc; reflexivity].
       + injection H as <- <- <- <-. eapply Rconn_get; eauto.
-    - destruct (may_substitute substitute st true sql); [|injection H as <- <- <- <-; apply Rconn_same; reflexivity].
+    - destruct (may_substitute substitute st true sql); [|injection H as <- <- <- <-; apply Rconn_same; reflexivity|injection H as <- <- <- <-; apply Rconn_same; reflexivity].
       destruct (get_conn st w c) as [[[ev1 st1] w1] [id|]] eqn:G.
       + pose proof (Rconn_get _ _ _ _ _ _ _ G) as RG.
         destruct (should_skip (labels st1) (engine sc) conds).
@@ -397,7 +397,7 @@ Section Model.
           eapply Rconn_ext; [exact RG|reflexivity|reflexivity|apply filter_connect_snoc; reflexivity].
       + injection H as <- <- <- <-. eapply Rconn_get; eauto.
     - destruct (should_skip (labels st) [] conds); [injection H as <- <- <- <-; apply Rconn_same; reflexivity|].
-      destruct (may_substitute substitute st false cmd); [|injection H as <- <- <- <-; apply Rconn_same; reflexivity].
+      destruct (may_substitute substitute st false cmd); [|injection H as <- <- <- <-; apply Rconn_same; reflexivity|injection H as <- <- <- <-; apply Rconn_same; reflexivity].
       unfold sys_request in H. injection H as <- <- <- <-. apply Rconn_same; reflexivity.
     - destruct c; injection H as <- <- <- <-; apply (Rconn_ext (st, w) [] (st, w)); try reflexivity;
         apply Rconn_same; reflexivity.
